@@ -68,8 +68,15 @@ class KGen:
         return {"body": [self.stmt(0, True) for _ in range(self.r.randint(2, 8))]}
 
 
+TD = "memref<2x?xi32>"  # static dimension in front of a dynamic one
+
+
 def kernels_emit(ast):
     L = []
+    dyn = bool(ast.get("dyn"))
+    T = TD if dyn else globals()["T"]
+    amap = "affine_map<(d0, d1) -> (d0, d1)>" if dyn else "affine_map<(d0) -> (d0)>"
+    iters = '"parallel", "parallel"' if dyn else '"parallel"'
 
     def e(ind, s):
         L.append("  " * ind + s)
@@ -77,18 +84,18 @@ def kernels_emit(ast):
     def stmts(ind, body):
         for s in body:
             if s["k"] == "alloc":
-                e(ind, f'{s["name"]} = memref.alloc() {{vsite = {s["site"]} : i64}} : {T}')
+                e(ind, f'{s["name"]} = memref.alloc({"%dyn" if dyn else ""}) {{vsite = {s["site"]} : i64}} : {T}')
             elif s["k"] == "for":
                 e(ind, f'scf.for {s["iv"]} = %c0 to {s["ub"]} step %c1 {{')
                 stmts(ind + 1, s["body"])
                 e(ind, "}")
             else:
                 n = len(s["ins"])
-                maps = ", ".join(["affine_map<(d0) -> (d0)>"] * (n + 1))
+                maps = ", ".join([amap] * (n + 1))
                 args = ", ".join(f"%x{j} : i32" for j in range(n + 1))
                 e(
                     ind,
-                    f'linalg.generic {{indexing_maps = [{maps}], iterator_types = ["parallel"], doc = "k{s["tag"]}"}} '
+                    f'linalg.generic {{indexing_maps = [{maps}], iterator_types = [{iters}], doc = "k{s["tag"]}"}} '
                     f'ins({", ".join(s["ins"])} : {", ".join([T] * n)}) outs({s["out"]} : {T}) {{\n^bb0({args}):\n'
                     + (f"  %acc = arith.addi %x0, %x{n} : i32\n  linalg.yield %acc : i32\n}}" if s.get("acc") else "  linalg.yield %x0 : i32\n}"),
                 )
@@ -97,6 +104,8 @@ def kernels_emit(ast):
     e(1, f"func.func public @f(%a0 : {T}, %a1 : {T}, %a2 : {T}, %n0 : index, %n1 : index) {{")
     e(2, "%c0 = arith.constant 0 : index")
     e(2, "%c1 = arith.constant 1 : index")
+    if dyn:
+        e(2, f"%dyn = memref.dim %a0, %c1 : {T}")
     stmts(2, ast["body"])
     e(2, "func.return")
     e(1, "}")
@@ -137,11 +146,16 @@ def first_use_is_read(ast, what="discipline", lc_args=()):
     return all(c["kinds"][0] in ("r", "rw") or not ({"r", "rw"} & set(c["kinds"])) for cs in casts.values() for c in cs)
 
 
-def kargs(m: BufferMachine, env):
+def kargs(m: BufferMachine, env, dyn=False):
     vs = []
     for i in range(3):
-        b = m.new_buffer(f"a{i}", E, external=True)
-        vs.append(View(b, 0, [E], [1]))
+        if dyn:
+            cols = env.get("cols", 3)
+            b = m.new_buffer(f"a{i}", 2 * cols, external=True)
+            vs.append(View(b, 0, [2, cols], [cols, 1]))
+        else:
+            b = m.new_buffer(f"a{i}", E, external=True)
+            vs.append(View(b, 0, [E], [1]))
     return vs + list(env["n"])
 
 
@@ -235,10 +249,10 @@ def run_kernels(case, out):
         out["runs"] += 2
         out["zero_fault_runs"] += 2
         ref = BufferMachine(P, 1, sequential=True)
-        ref.run_single("f", kargs(ref, env), Core(0))
+        ref.run_single("f", kargs(ref, env, case["ast"].get("dyn")), Core(0))
         sub = BufferMachine(S, 1, sequential=True)
         try:
-            sub.run_single("f", kargs(sub, env), Core(0))
+            sub.run_single("f", kargs(sub, env, case["ast"].get("dyn")), Core(0))
         except Violation as v:
             out.update(status="violation", oracle=v.oracle, message=v.message, env_index=i)
             return out
@@ -459,8 +473,12 @@ def gen_case(rng, tier):
     accum = rng.choice([0, 0, 0, 0.3])
     ast = KGen(rng, accum).program()
     envs = [{"n": [rng.choice([0, 1, 2]), rng.choice([0, 1, 2])]} for _ in range(K_ENVS[tier])]
+    if rng.random() < 0.15:
+        ast["dyn"] = True  # all buffers are 2 x ? (run-time number of columns 1..4): stand-ins are sized with memref.dim
+        for e in envs:
+            e["cols"] = rng.choice([1, 2, 3, 4])
     case = {"fam": "kernels", "ast": ast, "envs": envs, "clear": rng.random() < 0.2}
-    if rng.random() < 0.25:
+    if rng.random() < 0.25 and not ast.get("dyn"):
         # chains of casts: every kernel operand standing for these arguments gets its own layout cast on top of the L1 cast
         case["lc_args"] = sorted(rng.sample([0, 1, 2], rng.choice([1, 1, 2, 3])))
     return case
@@ -513,7 +531,9 @@ def shrink(case):
         for e in case["envs"]:
             yield dict(case, envs=[e])
     for nb in _shrink_body(case["ast"]["body"]):
-        yield dict(case, ast={"body": nb})
+        yield dict(case, ast=dict(case["ast"], body=nb))
+    if case["ast"].get("dyn"):
+        yield dict(case, ast={k: v for k, v in case["ast"].items() if k != "dyn"})
     if case["clear"]:
         yield dict(case, clear=False)
     if case.get("lc_args"):
